@@ -62,6 +62,20 @@ func c18Build(cs c18Case) c18File {
 		for n := 0; n < bigAnc; n += 50000 {
 			anc = append(anc, imggen.PNGChunk{Type: "zTXt", Data: append([]byte("k\x00\x00"), rng.Bytes(50000)...)})
 		}
+		if strings.HasPrefix(cs.Variant, "align") && s.ICC != nil {
+			// one text chunk sized so that the compressed profile ends exactly at the given file offset:
+			// 8 signature + 25 IHDR + (12 + L) tEXt + 8 iCCP header + name + 2 + stream
+			var target int
+			fmt.Sscanf(cs.Variant, "align%d", &target)
+			s.ICC.Name, s.ICC.Level = "al", 0
+			stream := imggen.Deflate(icc, 0)
+			s.ICC.RawStream = stream
+			l := target - (8 + 25 + 12 + 8 + len(s.ICC.Name) + 2 + len(stream))
+			if l < 2 {
+				l = 2
+			}
+			anc = []imggen.PNGChunk{{Type: "tEXt", Data: append([]byte("k\x00"), rng.Bytes(l-2)...)}}
+		}
 		if cs.Variant == "bigchunk" { // one chunk of 700 KiB, then a small one
 			anc = []imggen.PNGChunk{{Type: "tEXt", Data: append([]byte("k\x00"), rng.Bytes(700<<10)...)}, {Type: "tIME", Data: []byte{0x07, 0xe8, 2, 29, 12, 34, 56}}}
 		}
@@ -255,6 +269,14 @@ func c18Check(cs c18Case) (kind, msg string, over int64) {
 	f := c18Build(cs)
 	var res loadResult
 	var pulled int64
+	if cs.Seed&8 != 0 && f.needEnd > 40 && f.needEnd <= len(f.head) {
+		// history: loads of the same file that break off part-way (inside the profile, inside a
+		// header) happen first - whatever a loader keeps between calls must not remember them
+		for _, cut := range []int{f.needEnd / 2, f.needEnd - 5, f.needEnd * 3 / 4} {
+			_ = loadWith(cs.Loader, bytes.NewReader(f.head[:cut]))
+			_ = loadWith(cs.Loader, src.New(f.head).FaultAt(int64(cut)))
+		}
+	}
 	if cs.Schedule == "seekable" {
 		ss := &seekableSource{all: f.head, tailN: f.tailLen, tailF: f.tailF}
 		res = loadWith(cs.Loader, ss)
@@ -321,6 +343,22 @@ func c18Cases(seed int64, thorough bool) []c18Case {
 	}
 	for _, n := range iccSizes {
 		add("PNG", "plain", "after-ancillary", n)
+	}
+	// compact profiles: the whole iCCP chunk (name, method, stream, CRC) is shorter than 80 bytes
+	for _, n := range []int{1, 9, 40} {
+		add("PNG", "plain", "after-header", n)
+		add("JPEG", "baseline", "after-header", n)
+		add("WebP", "VP8X+VP8", "after-header", n)
+	}
+	// the compressed profile ends within a few bytes of a multiple of the loaders' 4096-byte read-ahead
+	for d := -7; d <= 6; d++ {
+		for _, mult := range []int{1, 2} {
+			for _, loader := range []string{"pngmeta", "autometa"} {
+				for _, sc := range []string{"all", "4096", "seekable"} {
+					out = append(out, c18Case{"PNG", fmt.Sprintf("align%+d", mult*4096+d), "after-ancillary", 700, 64 << 10, loader, sc, rng.U64()})
+				}
+			}
+		}
 	}
 	add("PNG", "bigchunk", "none", 0)
 	add("PNG", "bigchunk", "after-ancillary", 500)
